@@ -257,6 +257,12 @@ def gen_pointwise(run):
     yield s
 
 
+def gen_unwrap(run):
+  L = run.pick(5, 6)
+  for s_ in seqs(L):
+    yield s_
+
+
 def run_clip(case):
   x = [F(v) for v in case]
   for lo in LIMITS:
@@ -406,7 +412,7 @@ KINDS = OrderedDict([
   ("envelope", Kind(gen_envelope, run_envelope, chunk=20, rule="all sequences x strategies x cut-offs")),
   ("clip", Kind(gen_pointwise, run_clip, chunk=200, rule="all sequences x all limit pairs")),
   ("zcross", Kind(gen_pointwise, run_zcross, chunk=200, rule="all sequences x hysteresis x first_sign; non-trivial: a crossing is expected")),
-  ("unwrap", Kind(gen_pointwise, run_unwrap, chunk=200, rule="all sequences x (max_delta, step) pairs x parameter types; non-trivial: a jump above max_delta")),
+  ("unwrap", Kind(gen_unwrap, run_unwrap, chunk=200, rule="all sequences x (max_delta, step) pairs x parameter types; non-trivial: a jump above max_delta")),
   ("unwrap-fine", Kind(gen_fine, run_unwrap, chunk=100, rule="sequences over a finer 8-value alphabet (length <= 4) x the same configurations")),
   ("zcross-fine", Kind(gen_fine, run_zcross, chunk=100, rule="sequences over the finer alphabet x hysteresis x first_sign")),
 ])
